@@ -12,15 +12,35 @@ import (
 // place or returns it uncalled (so that it is called after its definer has
 // returned), read or write access, and the route by which the escaped innermost
 // function is finally invoked.
-func C02(thorough bool, yield func(Program)) {
+func C02(thorough bool, yield func(Program)) { c02(thorough, yield, true) }
+
+// C02Corpus is C02 as a member of the shared corpus (C04, C17, C20 run every program through many variants): the two
+// large sequence families are thinned to every 64th / 8th program there; the C02 check itself runs them in full.
+func C02Corpus(thorough bool, yield func(Program)) { c02(thorough, yield, false) }
+
+func c02(thorough bool, yield func(Program), full bool) {
 	if thorough {
 		C02Multi(5, yield)
 	} else {
 		C02Multi(4, yield)
 	}
 	C02Events(yield)
-	C02Failed(yield)
-	C02Host(yield)
+	if full {
+		C02Failed(yield)
+		C02Host(yield)
+	} else {
+		n := 0
+		C02Failed(func(p Program) {
+			if n++; n%64 == 0 {
+				yield(p)
+			}
+		})
+		C02Host(func(p Program) {
+			if n++; n%8 == 0 {
+				yield(p)
+			}
+		})
+	}
 	maxD := 3
 	if thorough {
 		maxD = 5
